@@ -5,7 +5,7 @@ From Pybtex Require Import Base.Prelude Base.PyChar Base.PyStr Model.RtTypes Mod
 (* ------------------------------------------------------------------------------ *)
 (* a generic preservation principle: a property of texts that holds of strings, passes to the
    parts and is re-established by `build` is preserved by every operation *)
-Section Pres.
+Section PresMk.
   Variable P : rt -> Prop.
   Hypothesis HStr : forall s, P (RStr s).
   Hypothesis Hparts : forall t, P t -> Forall P (parts_of t).
@@ -65,8 +65,17 @@ Section Pres.
     unfold mkc. destruct (mk _ k raw) as [t|] eqn:E; cbn; [|discriminate]. intros Hr H; inversion H; subst.
     eapply mk_pres; eauto.
   Qed.
+End PresMk.
+
+(* ... and more generally by every operation, for any property the constructor establishes *)
+Section Pres.
+  Variable P : rt -> Prop.
+  Hypothesis HStr : forall s, P (RStr s).
+  Hypothesis Hparts : forall t, P t -> Forall P (parts_of t).
+  Hypothesis Hmkc : forall k raw v, Forall P raw -> mkc k raw = Ok v -> P v.
+
   Lemma create_similar_pres t ps v : Forall P ps -> create_similar t ps = Ok v -> P v.
-  Proof. apply mkc_pres. Qed.
+  Proof. apply Hmkc. Qed.
 
   Lemma mapM_pres {X} (g : X -> res rt) l ys :
     (forall x y, In x l -> g x = Ok y -> P y) -> mapM g l = Ok ys -> Forall P ys.
@@ -135,7 +144,7 @@ Section Pres.
   Qed.
 
   Lemma add_pres a b v : P a -> P b -> add a b = Ok v -> P v.
-  Proof. intros Ha Hb. apply mkc_pres. repeat constructor; assumption. Qed.
+  Proof. intros Ha Hb. apply Hmkc. repeat constructor; assumption. Qed.
   Lemma append_pres t x v : P t -> P x -> append t x = Ok v -> P v.
   Proof.
     intros Ht Hx. unfold append. destruct (is_multipart t); [|now apply add_pres].
@@ -147,7 +156,7 @@ Section Pres.
     destruct ps; [constructor; [exact Hp|constructor]|]. constructor; [exact Hp|]. constructor; [exact Hs|exact IH].
   Qed.
   Lemma rjoin_pres s ps v : P s -> Forall P ps -> rjoin s ps = Ok v -> P v.
-  Proof. intros Hs Hps. apply mkc_pres. now apply join_list_pres. Qed.
+  Proof. intros Hs Hps. apply Hmkc. now apply join_list_pres. Qed.
   Lemma capfirst_pres t v : P t -> capfirst t = Ok v -> P v.
   Proof.
     intros Ht H. unfold capfirst in H.
@@ -220,6 +229,7 @@ Proof.
 Qed.
 
 Notation PW := (mkc_pres wf wf_str wf_parts wf_build).
+Definition wf_mkc k raw v : Forall wf raw -> mkc k raw = Ok v -> wf v := PW k raw v.
 
 Theorem ctor_flat_x k raw : Forall wf raw -> exists v, mkc k raw = Ok v /\ wf v /\
   flat v = pushk_e k (concat (map flat raw)).
@@ -233,7 +243,7 @@ Theorem case_flat_x up t : wf t -> exists v, case_c up t = Ok v /\ wf v /\
   flat v = map (conv_pair up) (flat t).
 Proof.
   intro W. destruct (case_flat_e up t) as [v [Hv Hf]]. exists v. split; [exact Hv|].
-  assert (Wv : wf v) by (eapply (case_conv_pres wf wf_str wf_parts wf_build); eauto). split; [exact Wv|].
+  assert (Wv : wf v) by (eapply (case_conv_pres wf wf_str wf_parts wf_mkc); eauto). split; [exact Wv|].
   rewrite <- (wf_flat v Wv), Hf, conv_erase, wf_flat by exact W. reflexivity.
 Qed.
 
@@ -241,7 +251,7 @@ Theorem slice_flat_x t i j : wf t -> exists v, getitem_c t (KSlice i j) = Ok v /
   flat v = pyslice (flat t) i j.
 Proof.
   intro W. destruct (slice_flat_e t i j) as [v [Hv Hf]]. exists v. split; [exact Hv|].
-  assert (Wv : wf v) by (eapply (getitem_pres wf wf_str wf_parts wf_build); eauto). split; [exact Wv|].
+  assert (Wv : wf v) by (eapply (getitem_pres wf wf_str wf_parts wf_mkc); eauto). split; [exact Wv|].
   rewrite <- (wf_flat v Wv), Hf, wf_flat by exact W. reflexivity.
 Qed.
 
@@ -250,14 +260,14 @@ Theorem index_flat_x t i p : wf t -> pyindex (flat t) i = Some p ->
 Proof.
   intros W Hp. rewrite <- (wf_flat t W) in Hp. destruct (index_flat_e t i p Hp) as [v [Hv Hf]].
   exists v. split; [exact Hv|].
-  assert (Wv : wf v) by (eapply (getitem_pres wf wf_str wf_parts wf_build); eauto). split; [exact Wv|].
+  assert (Wv : wf v) by (eapply (getitem_pres wf wf_str wf_parts wf_mkc); eauto). split; [exact Wv|].
   now rewrite <- (wf_flat v Wv).
 Qed.
 
 Theorem add_flat_x a b : wf a -> wf b -> exists v, add a b = Ok v /\ wf v /\ flat v = flat a ++ flat b.
 Proof.
   intros Wa Wb. destruct (add_flat_e a b) as [v [Hv Hf]]. exists v. split; [exact Hv|].
-  assert (Wv : wf v) by exact (add_pres wf wf_str wf_parts wf_build a b v Wa Wb Hv). split; [exact Wv|].
+  assert (Wv : wf v) by exact (add_pres wf wf_mkc a b v Wa Wb Hv). split; [exact Wv|].
   rewrite <- (wf_flat v Wv), Hf, erase_app, !wf_flat by assumption. reflexivity.
 Qed.
 
@@ -271,7 +281,7 @@ Theorem append_flat_x t x : wf t -> wf x -> exists v, append t x = Ok v /\ wf v 
   flat v = flat t ++ push_top t (flat x).
 Proof.
   intros Wt Wx. destruct (append_flat_e t x) as [v [Hv Hf]]. exists v. split; [exact Hv|].
-  assert (Wv : wf v) by exact (append_pres wf wf_str wf_parts wf_build t x v Wt Wx Hv). split; [exact Wv|].
+  assert (Wv : wf v) by exact (append_pres wf wf_parts wf_mkc t x v Wt Wx Hv). split; [exact Wv|].
   rewrite <- (wf_flat v Wv), Hf, erase_app, erase_push_opt, (wf_top t Wt), !wf_flat by assumption. reflexivity.
 Qed.
 
@@ -279,7 +289,7 @@ Theorem join_flat_x sep ps : wf sep -> Forall wf ps -> exists v, rjoin sep ps = 
   flat v = join_flat (flat sep) (map flat ps).
 Proof.
   intros Ws Wp. destruct (join_flat_e sep ps) as [v [Hv Hf]]. exists v. split; [exact Hv|].
-  assert (Wv : wf v) by exact (rjoin_pres wf wf_str wf_parts wf_build sep ps v Ws Wp Hv). split; [exact Wv|].
+  assert (Wv : wf v) by exact (rjoin_pres wf wf_mkc sep ps v Ws Wp Hv). split; [exact Wv|].
   rewrite <- (wf_flat v Wv), Hf, erase_join, (wf_flat sep Ws), map_map. f_equal.
   apply map_ext_in. intros p Hp. rewrite Forall_forall in Wp. apply wf_flat, Wp, Hp.
 Qed.
@@ -287,70 +297,14 @@ Qed.
 Theorem capfirst_flat_x t : wf t -> exists v, capfirst t = Ok v /\ wf v /\ flat v = capfirst_flat (flat t).
 Proof.
   intro W. destruct (capfirst_flat_e t) as [v [Hv Hf]]. exists v. split; [exact Hv|].
-  assert (Wv : wf v) by (eapply (capfirst_pres wf wf_str wf_parts wf_build); eauto). split; [exact Wv|].
+  assert (Wv : wf v) by (eapply (capfirst_pres wf wf_str wf_parts wf_mkc); eauto). split; [exact Wv|].
   rewrite <- (wf_flat v Wv), Hf, wf_flat by exact W. reflexivity.
 Qed.
 Theorem capitalize_flat_x t : wf t -> exists v, capitalize t = Ok v /\ wf v /\ flat v = capitalize_flat (flat t).
 Proof.
   intro W. destruct (capitalize_flat_e t) as [v [Hv Hf]]. exists v. split; [exact Hv|].
-  assert (Wv : wf v) by (eapply (capitalize_pres wf wf_str wf_parts wf_build); eauto). split; [exact Wv|].
+  assert (Wv : wf v) by (eapply (capitalize_pres wf wf_str wf_parts wf_mkc); eauto). split; [exact Wv|].
   rewrite <- (wf_flat v Wv), Hf, wf_flat by exact W. reflexivity.
-Qed.
-
-(* ------------------------------------------------------------------------------ *)
-(* histories, exactly *)
-Lemma mapO_in {X Y} (f : X -> option Y) l ys x : mapO f l = Some ys -> In x l -> exists y, f x = Some y.
-Proof.
-  revert ys. induction l as [|a l IH]; cbn; intros ys H Hin; [tauto|].
-  destruct (f a) as [y|] eqn:Fa; [|discriminate]. destruct (mapO f l) as [ys'|] eqn:M; [|discriminate].
-  destruct Hin as [->|Hin]; [eauto|]. eapply IH; eauto.
-Qed.
-
-Lemma eval_wf n : forall e r, spec e = Some r -> forall v, eval n e = Ok v -> wf v.
-Proof.
-  induction n as [|n IH]; intros e r Hs v Hv; [discriminate|].
-  assert (IHl : forall ps rs vs, mapO spec ps = Some rs -> mapM (eval n) ps = Ok vs -> Forall wf vs).
-  { intros ps rs vs M Hm. eapply (mapM_pres wf); [|exact Hm]. intros x y Hin Hy.
-    destruct (mapO_in _ _ _ _ M Hin) as [rx Hrx]. eapply IH; eauto. }
-  rewrite eval_S in Hv. cbv zeta in Hv.
-  destruct e; cbn [spec] in Hs; try discriminate; cbv beta iota in Hv.
-  - inversion Hv. reflexivity.
-  - inversion Hv. reflexivity.
-  - destruct (mapO spec ps) as [rs|] eqn:M; [|discriminate]. apply bind_ok in Hv as [vs [Hvs Hv]].
-    eapply PW; [|exact Hv]. eapply IHl; eauto.
-  - destruct (mapO spec ps) as [rs|] eqn:M; [|discriminate]. apply bind_ok in Hv as [vs [Hvs Hv]].
-    eapply PW; [|exact Hv]. eapply IHl; eauto.
-  - destruct (mapO spec ps) as [rs|] eqn:M; [|discriminate]. apply bind_ok in Hv as [vs [Hvs Hv]].
-    eapply PW; [|exact Hv]. eapply IHl; eauto.
-  - destruct (mapO spec ps) as [rs|] eqn:M; [|discriminate]. apply bind_ok in Hv as [vs [Hvs Hv]].
-    eapply PW; [|exact Hv]. eapply IHl; eauto.
-  - destruct (spec e) as [ra|] eqn:Sa; [|discriminate]. apply bind_ok in Hv as [a [Ha Hv]].
-    eapply (case_conv_pres wf wf_str wf_parts wf_build); [|exact Hv]. eapply IH; eauto.
-  - destruct (spec e) as [ra|] eqn:Sa; [|discriminate]. apply bind_ok in Hv as [a [Ha Hv]].
-    eapply (case_conv_pres wf wf_str wf_parts wf_build); [|exact Hv]. eapply IH; eauto.
-  - destruct (spec e) as [ra|] eqn:Sa; [|discriminate]. apply bind_ok in Hv as [a [Ha Hv]].
-    eapply (capitalize_pres wf wf_str wf_parts wf_build); [|exact Hv]. eapply IH; eauto.
-  - destruct (spec e) as [ra|] eqn:Sa; [|discriminate]. apply bind_ok in Hv as [a [Ha Hv]].
-    eapply (capfirst_pres wf wf_str wf_parts wf_build); [|exact Hv]. eapply IH; eauto.
-  - destruct (spec e) as [ra|] eqn:Sa; [|discriminate]. apply bind_ok in Hv as [a [Ha Hv]].
-    eapply (getitem_pres wf wf_str wf_parts wf_build); [|exact Hv]. eapply IH; eauto.
-  - destruct (spec e1) as [ra|] eqn:Sa; [|discriminate]. destruct (spec e2) as [rb|] eqn:Sb; [|discriminate].
-    apply bind_ok in Hv as [a [Ha Hv]]. apply bind_ok in Hv as [b [Hb Hv]].
-    exact (add_pres wf wf_str wf_parts wf_build a b v (IH e1 ra Sa a Ha) (IH e2 rb Sb b Hb) Hv).
-  - destruct (spec e1) as [ra|] eqn:Sa; [|discriminate]. destruct (spec e2) as [rb|] eqn:Sb; [|discriminate].
-    apply bind_ok in Hv as [a [Ha Hv]]. apply bind_ok in Hv as [b [Hb Hv]].
-    exact (append_pres wf wf_str wf_parts wf_build a b v (IH e1 ra Sa a Ha) (IH e2 rb Sb b Hb) Hv).
-  - destruct (spec e) as [rs|] eqn:Ss; [|discriminate]. destruct (mapO spec es) as [rl|] eqn:M; [|discriminate].
-    apply bind_ok in Hv as [s [Hs' Hv]]. apply bind_ok in Hv as [ws [Hws Hv]].
-    exact (rjoin_pres wf wf_str wf_parts wf_build s ws v (IH e rs Ss s Hs') (IHl es rl ws M Hws) Hv).
-Qed.
-
-Theorem ops_compose_x e r : spec e = Some r ->
-  exists v, eval_c e = Ok v /\ wf v /\ top_markup v = fst r /\ flat v = snd r.
-Proof.
-  intro H. destruct (ops_compose_e e r H) as [v [Hv [Ht Hf]]]. exists v. split; [exact Hv|].
-  assert (W : wf v) by (eapply eval_wf; eauto). split; [exact W|].
-  rewrite <- (wf_top v W), <- (wf_flat v W). split; assumption.
 Qed.
 
 (* ------------------------------------------------------------------------------ *)
